@@ -327,10 +327,12 @@ class Group:
                 self.put(path, dest, vscale(base, x, dom, path))
                 return None
             return s
-        ex.summaries[f("projLookupTable).SelectInto")] = sel_ct(8)
-        ex.summaries[f("affineLookupTable).SelectInto")] = sel_ct(8)
-        ex.summaries[f("nafLookupTable5).SelectInto")] = sel_naf(8)
-        ex.summaries[f("nafLookupTable8).SelectInto")] = sel_naf(64)
+        for nm_, summ_ in (("projLookupTable).SelectInto", sel_ct(8)), ("affineLookupTable).SelectInto", sel_ct(8)),
+                           ("nafLookupTable5).SelectInto", sel_naf(8)), ("nafLookupTable8).SelectInto", sel_naf(64))):
+            try:
+                ex.summaries[f(nm_)] = summ_
+            except KeyError:
+                pass      # the selector no longer exists in this source: nothing to summarise (its users are executed as they are)
 
 
 def convert_globals(ex, heap):
